@@ -90,7 +90,7 @@ fn shrink_env(e: &EnvPlan) -> Vec<EnvPlan> {
             }
         }
         for m in &e.modes {
-            if let IoMode::ChopIntr { max, .. } = m {
+            if let IoMode::ChopIntr { max, .. } | IoMode::ChopBurst { max, .. } = m {
                 out.push(EnvPlan { modes: vec![IoMode::Chop { max: *max }], ..e.clone() });
             }
         }
@@ -196,20 +196,20 @@ pub fn candidates(case: &Case) -> Vec<Case> {
             }
         }
         Case::Merge(c) => {
-            for i in 0..c.sources.len() {
-                let mut s = c.sources.clone();
-                s.remove(i);
-                let mut a = c.attach.clone();
-                if i < a.len() {
-                    a.remove(i);
-                }
+            // drop runs of sources (halves, quarters, ... single ones); candidate lists stay linear in k
+            let idx: Vec<usize> = (0..c.sources.len()).collect();
+            for keep in drop_chunks(&idx).into_iter().take(40) {
+                let s: Vec<FileSpec> = keep.iter().map(|i| c.sources[*i].clone()).collect();
+                let a: Vec<u8> = keep.iter().map(|i| c.attach.get(*i).copied().unwrap_or(0)).collect();
                 out.push(Case::Merge(MergeCase { sources: s, attach: a, ..c.clone() }));
             }
-            for i in 0..c.sources.len() {
-                for s in spec_candidates(&c.sources[i]) {
-                    let mut srcs = c.sources.clone();
-                    srcs[i] = s;
-                    out.push(Case::Merge(MergeCase { sources: srcs, ..c.clone() }));
+            if c.sources.len() <= 8 {
+                for i in 0..c.sources.len() {
+                    for s in spec_candidates(&c.sources[i]) {
+                        let mut srcs = c.sources.clone();
+                        srcs[i] = s;
+                        out.push(Case::Merge(MergeCase { sources: srcs, ..c.clone() }));
+                    }
                 }
             }
             if c.attach.iter().any(|a| *a != 0) {
